@@ -3,7 +3,7 @@
 Decided: who may write pool / tick / position liquidity and from which computed values;
 one liquidity delta reaches the pool update, the lower-tick update (add to net), the
 upper-tick update (subtract from net) and the position update; the in-range test is
-exactly lower <= current < upper; gross == 0 de-initialises, otherwise initialized = true;
+exactly lower <= current < upper; gross == 0 returns the default (uninitialised) update, otherwise initialized = true;
 a crossing adds -net (a_to_b) or +net and happens only on initialised ticks reached
 exactly; the sync step applies each computed update to its own tick index.
 Not decided: the sum equality over histories; the tick-array search (C10)."""
